@@ -64,4 +64,38 @@ JOBS += [
             ["crypt_sha256crypt_rn", "SHA256_Update_recycled"], weak=True, extra=SHA_EXTRA),
     _method("sha512crypt", "M_sha512crypt", _sha_loops("_crypt_crypt_sha512crypt_rn", "sha512_process_recycled_bytes", 64),
             ["crypt_sha512crypt_rn", "sha512_process_recycled_bytes"], weak=True, extra=SHA_EXTRA),
+
 ]
+
+NT_LOOPS = [
+    {"function": "_crypt_crypt_nt_rn", "anchor": "for (size_t i = 0; i < phr_size; i++)",
+     "invariant": "i <= phr_size", "decreases": "phr_size - i"},
+]
+SUNMD5_LOOPS = [
+    {"function": "_crypt_crypt_sunmd5_rn", "anchor": "for (unsigned int i = 0; i < nrounds; i++)",
+     "invariant": "i <= nrounds && xv_md5_state == 0 && xv_md5_ctx == scratch && xv_phrase_absorbed >= 1",
+     "decreases": "nrounds - i"},
+]
+# A-gnuc (DESIGN.md 3.3): `*phrase << 1` with a negative char is defined by GNU C,
+# the dialect the project is built with; CBMC's ISO C check flags it.
+GNUC_SHIFT = {"match": r"shift operand is negative in \(signed int\)\*phrase << 1",
+              "reason": "left shift of a negative int is defined behaviour in GNU C (the project's dialect); "
+                        "the value is then truncated to uint8_t - the documented dropping of the 8th bit"}
+# A failed check makes CBMC report everything behind it UNKNOWN, so the check is
+# not generated for these translation units (all other shifts in crypt-des.c are
+# by constants below the operand width).
+DES_CHECKS = ["--bounds-check", "--pointer-check", "--pointer-overflow-check", "--div-by-zero-check",
+              "--signed-overflow-check", "--pointer-primitive-check", "--no-undefined-shift-check"]
+DES_EXTRA = {"checks": DES_CHECKS, "assumptions": ["A-gnuc: " + GNUC_SHIFT["reason"]], "unwind": 67, "bound": "phrase shorter than 512 bytes (do_crypt's guarantee): the key-folding loops are unwound 66 times, complete for it",
+             "timeout": 900}
+
+def _both(name, define, loops, functions, extra=None):
+    return [_method(name, define, loops, functions, extra=extra),
+            _method(name, define, loops, functions, weak=True, extra=extra)]
+
+JOBS += _both("nt", "M_nt", NT_LOOPS, ["crypt_nt_rn"], extra={"wip": True, "bounds": {"SPAN": 64, "STR": 32, "SPANEXACT": 24, "STRCPY": 384}, "unwind": 18})
+JOBS += _both("sunmd5", "M_sunmd5", SUNMD5_LOOPS, ["crypt_sunmd5_rn"],
+              extra={"late_src": ["models/snprintf.c"], "replace_calls": ["muffet_coin_toss:muffet_coin_toss_stub"], "timeout": 900, "mem_gb": 8})
+JOBS += _both("descrypt", "M_descrypt", [], ["crypt_descrypt_rn", "des_gen_hash", "ascii_to_bin"], extra=DES_EXTRA)
+JOBS += _both("bigcrypt", "M_bigcrypt", [], ["crypt_bigcrypt_rn", "crypt_descrypt_rn", "des_gen_hash", "ascii_to_bin"], extra=DES_EXTRA)
+JOBS += _both("bsdicrypt", "M_bsdicrypt", [], ["crypt_bsdicrypt_rn", "des_gen_hash", "ascii_to_bin"], extra=DES_EXTRA)
